@@ -193,7 +193,18 @@ def run_case(case, acc):
         factory = lambda _i: simnet.ScriptServer([('proxy', b'HTTP/1.1 200 Connection established\r\n\r\n'), ('hs', {})] + steps)   # noqa
     w = H.World(factory, horizon=horizon, stop_at=horizon, tls_records=case.get('rec'), tls_short=case.get('short'),
                 budget=400000)
-    run = H.drive(w, url=url, ws_kwargs=wskw, connect_kwargs=dict(ping_rate=0, poll=5.0))
+    ws0 = None
+    if case['seed'] % 4 == 1:
+        w0 = H.World(factory if via else H.hs_server([('raw', F(2, b'x' * 20000)[:9000]), ('eof',)]), tls_records=case.get('rec'), tls_short=case.get('short'))
+        r0 = H.drive(w0, url=url, ws_kwargs=wskw, connect_kwargs=dict(ping_rate=0, poll=5.0), stop_after=3)
+        try:
+            with simnet.Installed(w0):
+                r0.gen.close()
+        except Exception:   # noqa
+            pass
+        ws0 = r0.ws
+        acc.count2('oracle', 'reconnect_runs')
+    run = H.drive(w, url=url, ws=ws0, ws_kwargs=wskw, connect_kwargs=dict(ping_rate=0, poll=5.0))
     acc.count2('oracle', 'tls_runs' if tls else 'plain_runs')
     key = None
     detail = dict(end=run.end, exc=run.exc, blocked_waits=w.blocked_waits, blocked_with_pending=w.blocked_with_pending[:5],
